@@ -354,8 +354,8 @@ def c07d(prog, R, rid="C07.d"):
     r.floor(20)
 
 
-def c07f(prog, R):
-    r = R.rule("C07.f", "merge output stays inside the pulled-in range (leveled picker)", "B,K")
+def c07f(prog, R, rid="C07.f"):
+    r = R.rule(rid, "merge output stays inside the pulled-in range (leveled picker)", "B,K")
     name = "compaction::leveled::pick_minimal_compaction"
     h = prog.hir.get(name)
     if h is None:
